@@ -1,6 +1,7 @@
 package main
 
 import (
+	"strings"
 	"fmt"
 	"go/token"
 	"go/types"
@@ -55,6 +56,7 @@ func checkC06(c *Ctx) {
 	c.checkSanitizeBuffer("O4 pooled-buffer")
 	// ---- O5 no-op ----------------------------------------------------------------------------------
 	c.checkNoOpSanitizer("O5 no-op")
+	c.checkDecodedWidth("O6 decoded-width")
 }
 
 func orDefault(s, d string) string {
@@ -358,4 +360,64 @@ func (c *Ctx) checkNoOpSanitizer(rule string) {
 	})
 	c.check(hasNoop && hasNew, rule, c.fnKey(root), root.Pos(), "no options -> no-op sanitizer; options -> NewSanitizer(options)", "the root scope does not choose the no-op sanitizer when no SanitizeOptions are given and NewSanitizer(options) otherwise")
 	_ = types.Typ
+}
+
+// checkDecodedWidth (O6): in the sanitizer, how many bytes a decoded rune occupied in the input is
+// known only to the decoder (`for i, r := range s` advances i by it; utf8.DecodeRuneInString returns
+// it). Re-deriving it from the rune - utf8.RuneLen(r), len(string(r)), EncodeRune - is wrong for
+// invalid input: range yields U+FFFD with width 1, but RuneLen(U+FFFD) is 3, so two following bytes
+// are skipped (or a slice bound overruns).
+func (c *Ctx) checkDecodedWidth(rule string) {
+	n := 0
+	for _, fn := range c.funcsOfPkg("") {
+		file := c.Fset.Position(fn.Pos()).Filename
+		if !strings.HasSuffix(file, "sanitize.go") {
+			continue
+		}
+		// runes that come out of a range over a string
+		decoded := map[ssa.Value]bool{}
+		instrsOf(fn, func(in ssa.Instruction) {
+			if ex, ok := in.(*ssa.Extract); ok && ex.Index == 2 {
+				if nx, isN := ex.Tuple.(*ssa.Next); isN && nx.IsString {
+					decoded[ex] = true
+				}
+			}
+		})
+		if len(decoded) == 0 {
+			continue
+		}
+		n++
+		key := c.fnKey(fn)
+		c.sawFunc(key)
+		var bad ssa.Instruction
+		instrsOf(fn, func(in ssa.Instruction) {
+			if bad != nil {
+				return
+			}
+			switch x := in.(type) {
+			case *ssa.Call:
+				g := staticCallee(x)
+				if g != nil && g.Pkg != nil && g.Pkg.Pkg.Path() == "unicode/utf8" && (g.Name() == "RuneLen" || g.Name() == "EncodeRune" || g.Name() == "AppendRune") {
+					for _, a := range x.Call.Args {
+						if decoded[canon(stripConv(a))] && g.Name() == "RuneLen" {
+							bad = in
+						}
+					}
+				}
+				if isBuiltin(x, "len") {
+					if cv, isCv := stripConv(x.Call.Args[0]).(*ssa.Convert); isCv && decoded[canon(stripConv(cv.X))] {
+						bad = in // len(string(r))
+					}
+				}
+			}
+		})
+		c.check(bad == nil, rule, key, fn.Pos(), "the width of a decoded rune is never re-derived from the rune",
+			"the number of input bytes a decoded rune occupied is re-derived from the rune (RuneLen / len(string(r))): for an invalid byte the decoder yields U+FFFD after consuming ONE byte while the re-derived width is 3, so the bytes after an invalid byte are dropped or a slice bound overruns (panic)", func() string {
+				if bad != nil {
+					return c.describe(bad)
+				}
+				return ""
+			}())
+	}
+	c.floor(rule, n, 1)
 }
